@@ -23,8 +23,7 @@ class St:
 
     def reloc(self):
         x = self.x
-        data = self.b.read()
-        nb = x.buf(data)
+        nb = x.clone(self.b)        # "the state can be copied as a memory fragment"
         x.write(self.b, b"\xA5" * self.keep)
         x.free(self.b)
         self.b = nb
